@@ -1,20 +1,58 @@
 # C05 - normalization preserves the meaning of the code
+from hypothesis import strategies as st
+
+import gen_source
 from checks import _prog
 
 ID = "C05"
-OP = "c05"
+OP = None
 VERSIONS = _prog.VERSIONS
 versions_for = _prog.versions_for
-op_args = _prog.op_args
-strategy = _prog.strategy
-fixed_cases = _prog.fixed_cases
-RULE = "see c05.py"
-ASSUMPTIONS = _prog.PROG_ASSUMPTIONS
+RULE = ("case (a) = generated / corpus program compiled on each of 3.7-3.10: n = from_code(c).normalize().to_code() must have "
+        "the same symbolic reading as c (R-SYM: opnames, resolved operands, jump structure as instruction indices, line at "
+        "the first and opcode unit of every instruction, name/filename/firstlineno/stacksize/argument counts/parameters/"
+        "freevars/docstring, recursively), flags differing at most in CO_NESTED and (only when an unused cell variable "
+        "disappeared and no cell/free is left) CO_NOFREE; non-trivial (a) = normalization changed at least one raw field; "
+        "case (b) = closed, terminating-by-construction program (exec-safe grammar subset with a prelude) executed as c and "
+        "as n in fresh globals under sys.settrace with captured stdout, SIGALRM budget and lowered recursion limit: equal "
+        "stdout, final globals, exception type/args/traceback lines and trace-event sequence; non-trivial (b) = >=5 line "
+        "events in >=2 code objects; distinct = sha1(case)+interpreter")
+ASSUMPTIONS = _prog.PROG_ASSUMPTIONS + ["behaviour is compared only on the exec-safe subset; a time-budget overrun is inconclusive, never a violation"]
+REQUIRED_CLASSES = ["executed_programs", "line_events", "has_extended_arg", "unref_const", "unref_cell"]
+CRASH_IS_VIOLATION = False
+
+
+def run_case(ctx, case, versions):
+    if case.get("exec"):
+        a = {"case": {k: v for k, v in case.items() if k not in ("min_version", "exec")}}
+        return ctx.pool.call("c05_exec", a, versions, budget=30)
+    return ctx.pool.call("c05", _prog.op_args(case), versions)
+
+
+def strategy(tier):
+    general = _prog.strategy(tier)
+    safe = gen_source.grammar_programs(max_size=25 if tier == "quick" else 45, exec_safe=True).map(
+        lambda c: dict(c, exec=True, _label="exec_safe", optimize=0, mode="exec"))
+    return st.one_of(general, general, safe)
+
+
+EXEC_FIXED = [
+    "def h(n):\n    if n:\n        return h(n - 1) + 1\n    return 0\nprint(h(5))\nfor i in a:\n    print(i, x)\n",
+    "class A:\n    'doc'\n    def m(self, q):\n        return [i * q for i in a]\nprint(A().m(2))\n",
+    "def k(p, *r, s=1, **t):\n    def inner():\n        return p, r, s\n    return inner\nprint(k(1, 2, s=3)())\ntry:\n    raise E('boom')\nexcept E as e:\n    print(e)\nfinally:\n    print('done')\n",
+    "def d():\n    return\n    def unused():\n        return d\nprint(d())\nz = 'a' in {'a', 'b'}\nprint(z, -0.0, 1e999, (0.0, -0.0))\n",
+]
+
+
+def fixed_cases(tier):
+    out = _prog.fixed_cases(tier)
+    out += [{"src": s, "mode": "exec", "optimize": 0, "min_version": 7, "exec": True, "_label": "exec_fixed"} for s in EXEC_FIXED]
+    return out
 
 
 def examples(tier):
-    return 3000 if tier == "quick" else 40000
+    return 3600 if tier == "quick" else 50000
 
 
 def wall_budget(tier):
-    return 70.0 if tier == "quick" else 1500.0
+    return 60.0 if tier == "quick" else 1500.0
